@@ -802,3 +802,113 @@ def case_c17(bindir, seed, index, tier, extra):
 def replay_c17(bindir, rp):
     vs, _, _ = exec_case_c17(bindir, rp["case"])
     return [(c, d) for (c, d, r) in vs]
+
+
+# ================================================================================================
+# C31: concurrent plz invocations on one repository
+
+
+def gen_case_c31(seed, tier):
+    rng = Rng(seed)
+    spec = rs.gen_repo(rng, n_targets=(3, 9), n_pkgs=(1, 3), dep_density=0.6, use_defs_p=0.2, max_fanin=4, allow_filegroup=rng.chance(0.5))
+    spec["config"]["xattrs"] = rng.chance(0.8)
+    ts = rs.all_targets(spec)
+    k = rng.rng(2, 4)
+    multi = []
+    for i in range(k):
+        r = rng.intn(10)
+        if r < 5:
+            n = rng.rng(1, 2)
+            multi.append([rs.label(p, t["name"]) for p, t in rng.sample(ts, min(n, len(ts)))])
+        elif r < 7:
+            p, _ = rng.choice(ts)
+            multi.append(["//%s:all" % p])
+        else:
+            multi.append(["//..."])
+    nrun = 3 if tier == "quick" else 8
+    runs = []
+    for j in range(nrun):
+        runs.append({"seed": subseed(seed, "run%d" % j), "offsets": [rng.intn(60) if rng.chance(0.6) else 0 for _ in range(k)], "threads": rng.choice([1, 2, 4]), "prebuilt": rng.chance(0.25)})
+    return {"seed": seed, "spec": spec, "multi": multi, "runs": runs}
+
+
+def exec_case_c31(bindir, case):
+    import histlib as hl
+    out = []
+    w = hl.World(bindir, "c31")
+    try:
+        spec = case["spec"]
+        w.write(spec)
+        union = []
+        for m in case["multi"]:
+            for l in m:
+                if l not in union:
+                    union.append(l)
+        clean = w.clean_build(spec, union)
+        if clean["exit"] != 0:
+            return out, w.stats, w.sigs
+        for j, run in enumerate(case["runs"]):
+            shutil.rmtree(os.path.join(w.repo, "plz-out"), ignore_errors=True)
+            if os.path.exists(w.log):
+                os.remove(w.log)
+            if run.get("prebuilt"):
+                # one of the requests has been built before the concurrent invocations start
+                w.plz(["build"] + case["multi"][0] + BASE_ARGS, subseed(run["seed"], "pre"), policy="first")
+                if os.path.exists(w.log):
+                    os.remove(w.log)
+            args = ["build"] + union + BASE_ARGS + ["-n", str(run["threads"])]
+            res = simlib.run_plz(bindir, w.repo, args, run["seed"], w.home, w.sc.path("mt%d" % j), policy=run.get("policy", ""), choices=run.get("choices"),
+                                 multi=case["multi"], multi_offsets=run["offsets"], timeout=300)
+            w.stats["invocations"] += 1
+            w.stats["logical_invocations"] = w.stats.get("logical_invocations", 0) + len(case["multi"])
+            w.stats["sched_steps"] += res.stats.get("steps", 0)
+            for pk, n in (res.stats.get("probes") or {}).items():
+                w.stats.setdefault("probes", {})
+                w.stats["probes"][pk] = w.stats["probes"].get(pk, 0) + n
+            w.sigs.append(res.trace_digest())
+            run2 = dict(run, choices=res.choices())
+            if res.exit == simlib.EXIT_HANG:
+                out.append(("hang", "concurrent invocations did not terminate (deadlock?): %s" % res.sim_fail, run2))
+                break
+            if res.exit != 0:
+                codes = [l for l in res.trace_lines() if l.startswith("M ")]
+                out.append(("invocation-failed", "%d concurrent invocations of %s: exit codes %s; stderr: %s" % (len(case["multi"]), case["multi"], codes, res.stderr[-700:]), run2))
+                break
+            diffs, kinds = w.compare_outputs(clean)
+            if diffs:
+                out.append(("corrupt-output", "after %d concurrent invocations of %s the outputs differ from a clean build: %s" % (len(case["multi"]), case["multi"], " | ".join(diffs[:3])), run2))
+                break
+            # the same target's command never runs twice at once
+            openl = set()
+            for l in read_log(w.log):
+                if l[0] == "S":
+                    if l[1] in openl:
+                        out.append(("command-overlap", "the command of %s was started while another execution of it was still running" % l[1], run2))
+                        break
+                    openl.add(l[1])
+                elif l[0] == "E":
+                    openl.discard(l[1])
+            if out:
+                break
+        return out, w.stats, w.sigs
+    finally:
+        w.close()
+
+
+def case_c31(bindir, seed, index, tier, extra):
+    r = CaseResult()
+    case = gen_case_c31(seed, tier)
+    vs, stats, sigs = exec_case_c31(bindir, case)
+    r.evals = stats["invocations"]
+    r.stats = stats
+    r.sigs = [sig(s) for s in sigs]
+    if index < 2:
+        r.sample = {"multi": case["multi"], "runs": [{"offsets": x["offsets"], "threads": x["threads"]} for x in case["runs"]]}
+    for (c, d, run2) in vs[:1]:
+        r.violations.append(Violation(c, d, {"engine": "schedsim", "case": dict(case, runs=[run2])}))
+    return r
+
+
+def replay_c31(bindir, rp):
+    vs, _, _ = exec_case_c31(bindir, rp["case"])
+    return [(c, d) for (c, d, r) in vs]
